@@ -38,8 +38,8 @@ MANIFEST = dict(
          "reach the extension object, every duplicate is built from the same extension arguments and reports the same H0() (the rules on "
          "the spelling of the constructor, copy() and the pickling tuple fall back on this execution when the spelling changed); distance "
          "modulus formula by symbolic evaluation of the method body with the distance calls on (0, z) as terms in D_L.",
-    note="Not decided: truncation-error bound of the fixed-order rule, bit-identical results of copies (follows from equal constructor "
-         "arguments), libm. Trusted: clang AST, sympy normaliser, the method-table-to-Python naming of the extension type.",
+    note="Not decided: truncation-error bound of the fixed-order rule, libm. Bit-identical results of copies are decided as: the duplicate's extension "
+         "arguments are the same floating-point terms (same rounding operations on the same inputs) as the original's. Trusted: clang AST, sympy normaliser, the method-table-to-Python naming of the extension type.",
     technique="static analysis: formula conformance by symbolic normal forms lowered from the clang AST, format/table agreement, sibling cross-check of wrappers and dispatchers, exhaustive abstract evaluation of the normaliser",
 )
 
